@@ -1,0 +1,9 @@
+//go:build !verif
+
+package journal
+
+import "github.com/sboehler/knut/lib/model"
+
+func verifWrap(fs []func(*Day) error) []func(*Day) error { return fs }
+
+func verifArrival([]model.Directive) {}
